@@ -14,12 +14,7 @@ import (
 	"honnef.co/go/tools/lintcmd/runner"
 )
 
-func c10Choose(n int) int {
-	k := nondetInt()
-	vassume(k >= 0)
-	vassume(k < n)
-	return vconcrete(k)
-}
+func c10Choose(n int) int { return vchoose(n) }
 
 type c10Dir struct {
 	cmd    string // ignore | file-ignore
